@@ -48,17 +48,17 @@ META = {
         "design_ref": "DESIGN.md §4 C17",
     },
     "C18": {
-        "text": "Theorems: blocking mode restored on every path (C18_flag_restored), a caller-non-blocking descriptor is never waited on and gets -1/EAGAIN immediately (C18_nonblocking_never_waits, C18_nonblocking_immediate), for every script; connect: never waits on a non-blocking descriptor, waits at most once and bounded, restores the mode whatever the outcome, including an asynchronous failure after the wait (C18_connect_*). Tie: real fcntl(F_GETFL) before/after each of 14 hooked calls and connect in both modes, recorded waits, receive calls with and without MSG_WAITALL, connect on a connected socket and on one whose attempt was refused.",
+        "text": "Theorems: blocking mode restored on every path (C18_flag_restored), a caller-non-blocking descriptor is never waited on and gets -1/EAGAIN immediately (C18_nonblocking_never_waits, C18_nonblocking_immediate), for every script; connect: never waits on a non-blocking descriptor, waits at most once and bounded, restores the mode whatever the outcome, including an asynchronous failure after the wait (C18_connect_*). Tie: real fcntl(F_GETFL) before/after each of 14 hooked calls and connect in both modes, recorded waits, receive calls with and without MSG_WAITALL, connect on a connected socket and on one whose attempt was refused. `hookproc`: the same through the hook dylib in a separate process (recv on a blocking / non-blocking descriptor, flag read back).",
         "note": "Trusted: as C16. The 'hook applies process-wide' clause (dylib interposition) is not covered.",
         "design_ref": "DESIGN.md §4 C18",
     },
     "C19": {
-        "text": "Refinement to the kernel's own option value: invariant 'every cached limit is the kernel's current value of a live socket' proved inductive over open (any descriptor number, reuse included) / setsockopt / hooked I/O / close, hence every hooked I/O of every well-formed history applies the current option value (C19_history). The model has no abort path. Tie: real sockets (socketpair), real descriptor reuse, hooked setsockopt/close, recv/send_time_limit compared with raw getsockopt after every op, each history in a forked child.",
+        "text": "Refinement to the kernel's own option value: invariant 'every cached limit is the kernel's current value of a live socket' proved inductive over open (any descriptor number, reuse included) / setsockopt / hooked I/O / close, hence every hooked I/O of every well-formed history applies the current option value (C19_history). The model has no abort path. Tie: real sockets (socketpair), real descriptor reuse, hooked setsockopt/close, recv/send_time_limit compared with raw getsockopt after every op, each history in a forked child. `hookproc`: a separate process links the hook dylib built from /repo/hook and uses plain libc socketpair/setsockopt/recv/close with descriptor reuse; the limit the second recv applies is the model's answer for the same history.",
         "note": "Trusted: Lean kernel; cache model; the harness' raw getsockopt as the kernel truth; closes go through the hook.",
         "design_ref": "DESIGN.md §4 C19",
     },
     "C14": {
-        "text": "Interval-arithmetic theorems over all argument values: sleep/usleep/nanosleep request exactly the asked time; poll's and select's doubling loops add up to exactly the timeout when nothing is ready (select rounds up to the next ms: never early, < 1 ms late); pthread_cond_timedwait returns ETIMEDOUT exactly at the absolute deadline; invalid arguments => EINVAL and no wait; the event loop's 10 ms slicing never returns before the deadline and overshoots by at most the accumulated slack. Tie: the real calls with scripted probes, intercepted waits and a virtual clock (exact list of requested waits compared), plus a wall-clock smoke on a live event loop.",
+        "text": "Interval-arithmetic theorems over all argument values: sleep/usleep/nanosleep request exactly the asked time; poll's and select's doubling loops add up to exactly the timeout when nothing is ready (select rounds up to the next ms: never early, < 1 ms late); pthread_cond_timedwait returns ETIMEDOUT exactly at the absolute deadline; invalid arguments => EINVAL and no wait; the event loop's 10 ms slicing never returns before the deadline and overshoots by at most the accumulated slack. Tie: the real calls with scripted probes, intercepted waits and a virtual clock (exact list of requested waits compared), plus a wall-clock smoke on a live event loop. `hookproc`: sleep / usleep / nanosleep from a plain thread of a separate process that links the hook dylib.",
         "note": "Trusted: Lean kernel; hand-written model; wait interception hook + virtual clock; scheduling slack is an assumption (measured only by the smoke run). Coroutine callers are not exercised by this check.",
         "design_ref": "DESIGN.md §4 C14",
     },
